@@ -103,6 +103,52 @@ func registered(m *saml.EntityDescriptor) []epTriple {
 	return out
 }
 
+// c05SelectSet is the independent statement of the documented precedence: the endpoints that the stage which decides
+// designates (all with the requested index; else all at the requested URL; else all flagged default among the browser
+// bindings; else the first browser-binding endpoint).
+func c05SelectSet(m *saml.EntityDescriptor, reqURL, reqIndex string) ([]epTriple, bool) {
+	eps := registered(m)
+	var out []epTriple
+	if reqIndex != "" {
+		for _, e := range eps {
+			if strconv.Itoa(e.Index) == reqIndex {
+				out = append(out, e)
+			}
+		}
+		if len(out) > 0 {
+			return out, true
+		}
+	}
+	if reqURL != "" {
+		for _, e := range eps {
+			if e.Location == reqURL {
+				out = append(out, e)
+			}
+		}
+		if len(out) > 0 {
+			return out, true
+		}
+	}
+	if reqURL == "" && reqIndex == "" && m != nil {
+		for _, d := range m.SPSSODescriptors {
+			for _, e := range d.AssertionConsumerServices {
+				if e.IsDefault != nil && *e.IsDefault && (e.Binding == saml.HTTPPostBinding || e.Binding == saml.HTTPRedirectBinding) {
+					out = append(out, epTriple{e.Binding, e.Location, e.Index})
+				}
+			}
+		}
+		if len(out) > 0 {
+			return out, true
+		}
+		for _, e := range eps {
+			if e.Binding == saml.HTTPPostBinding || e.Binding == saml.HTTPRedirectBinding {
+				return []epTriple{e}, true
+			}
+		}
+	}
+	return nil, false
+}
+
 // c05Select is the independent statement of the documented precedence.
 func c05Select(m *saml.EntityDescriptor, reqURL, reqIndex string) (epTriple, bool) {
 	eps := registered(m)
@@ -438,10 +484,19 @@ func c05Run(c *core.Ctx, m *saml.EntityDescriptor, q c05Req) {
 			c.Violation("C05/unregistered-endpoint/acsURL="+q.acsURL.kind, fmt.Sprintf("selected endpoint %+v is not registered (%s)", got, desc), replay)
 			return
 		}
-		want, ok := c05Select(md, q.acsURL.val, q.acsIndex.val)
-		if ok && want != got {
-			c.Violation("C05/wrong-endpoint/index="+q.acsIndex.kind+"/url="+q.acsURL.kind, fmt.Sprintf("selected %+v, documented precedence gives %+v (%s)", got, want, desc), replay)
+		// with duplicate indices / locations / several isDefault flags the precedence names a set, not one endpoint: any
+		// member is a correct choice
+		wantSet, ok := c05SelectSet(md, q.acsURL.val, q.acsIndex.val)
+		inSet := false
+		for _, w := range wantSet {
+			inSet = inSet || w == got
+		}
+		if ok && !inSet {
+			c.Violation("C05/wrong-endpoint/index="+q.acsIndex.kind+"/url="+q.acsURL.kind, fmt.Sprintf("selected %+v, documented precedence gives %+v (%s)", got, wantSet, desc), replay)
 			return
+		}
+		if len(wantSet) > 1 {
+			c.Count("selection_ambiguous_by_duplicates(any member accepted)")
 		}
 		if !ok {
 			c.Count("library_selected_where_reference_finds_none(registered, no verdict)")
